@@ -302,4 +302,10 @@ def r7_5(ctx):
         ctx.check(f"for line_no in range({h.id})" in norm(f.node), f.fq, f"range({h.id})", where, "the row's lines are emitted for exactly that height", f"the emitted line count is not range({h.id})")
 
 
-RULES = [r7_1, r7_2, r7_3, r7_4, r7_5]
+def r7_6(ctx):
+    from .c02 import r2_4
+    from .common import borrow
+    borrow(ctx, r2_4, "R2.4", "R7.6", " [a folded cell shows every character only if the break computation keeps its units and its running position right]")
+
+
+RULES = [r7_1, r7_2, r7_3, r7_4, r7_5, r7_6]
